@@ -615,7 +615,7 @@ def run_case(case):
     # numeric oracle
     orc = {}
     try:
-        conc = GConcrete(random.Random(case.get("seed", 0)), dim=d, deg=2)
+        conc = GConcrete(random.Random(case.get("seed", 0)), dim=d, deg=int(case.get("deg", 3)))
         lit = {"k": "op", "name": op, "a": out["ins"]}
         try:
             vl = conc.g(lit)
